@@ -158,7 +158,7 @@ def kani_phase(prop, tier, known, res, work, only_set):
         else:
             plan.append((o, "deciding", None))
     if natives:
-        native_bounded_phase(prop, natives, units, features, res)
+        native_bounded_phase(prop, natives, units, features, res, known_by_ob)
     if not plan:
         return
 
@@ -281,7 +281,7 @@ def confirm_and_report(prop, o, single, crate_dir, features, res, units, note=""
     return True
 
 
-def native_bounded_phase(prop, natives, units, features, res):
+def native_bounded_phase(prop, natives, units, features, res, known_by_ob=None):
     """Bounded stand-ins executed natively: plain functions with concrete enumeration loops and asserts, compiled by
     rustc against the staged real crate (debug profile, overflow checks on). Labelled bounded, never counted as proof."""
     cid = prop["id"]
@@ -315,10 +315,19 @@ def native_bounded_phase(prop, natives, units, features, res):
             continue
         if m.group(1) == "ok":
             rec["status"] = "discharged"
+            if known_by_ob and o["name"] in known_by_ob:
+                rec["role"] = "witness"
+                log("[%s] note: known finding for %s no longer reproduces" % (cid, o["name"]))
             continue
         rec["status"] = "failed"
         pm = re.search(r"---- \S*::verif_native_%s stdout ----\n(.*?)(?:\n\n|\Z)" % re.escape(o["name"]), out, re.S)
         rec["reason"] = (pm.group(1).strip()[:400] if pm else "native assertion failed")
+        if known_by_ob and o["name"] in known_by_ob:
+            # a witness function that contains only the scenarios of a listed known finding
+            rec["status"], rec["role"] = "known-finding", "witness"
+            for k in known_by_ob[o["name"]]:
+                res.known_hits.append("obligation=%s class=%s :: %s" % (o["name"], k.get("class", ""), k["what"]))
+            continue
         tname = "verif_native_%s" % o["name"]
         code = "#[test]\nfn %s() {\n    %s();\n}" % (tname, o["name"])
         replay_path = os.path.join(REPLAY_DIR, "%s-%s.json" % (cid, o["name"]))
